@@ -2,6 +2,8 @@ import PfVerif.Audit.Tool
 import PfVerif.Props.C12
 import PfVerif.Lemmas.C12Session
 import PfVerif.Lemmas.C12Multi
+import PfVerif.Lemmas.C12Listing
 #audit_module PfVerif.Props.C12
 #audit_module_ns PfVerif.Lemmas.C12Session PfVerif.C12Session
 #audit_module_ns PfVerif.Lemmas.C12Multi PfVerif.C12Multi
+#audit_module_ns PfVerif.Lemmas.C12Listing PfVerif.C12Listing
